@@ -6,7 +6,7 @@ META = {
              'shapes {small tuple, nested containers, ~300 KiB multi-frame pickle}; first run under backend B1 '
              '(serial/fork/spawn) records value and result_meta of every task; second run in the same process under '
              'B2 and third run in a fresh interpreter with another PYTHONHASHSEED under B3 request random subsets. '
-             'A fourth phase replaces the entries (bust_cache with new instances under B4) and then hits the cache under B5 with the ORIGINAL task objects, which still carry the result_meta of the overwritten execution. Oracle: is_cached true for every executed task; later runs return the recorded values (values embed '
+             'Separately, a stand-alone user script whose task types live in __main__ (the README way of using labtech; nested tasks, post_init, dict parameter) is run for every ordered backend pair: first run under B1, second run with fresh objects under B2 - no re-execution, equal values and result_meta, all entries listed. A fourth phase replaces the entries (bust_cache with new instances under B4) and then hits the cache under B5 with the ORIGINAL task objects, which still carry the result_meta of the overwritten execution. Oracle: is_cached true for every executed task; later runs return the recorded values (values embed '
              'task name and the generation of the run that computed them, so a cross-wired or re-executed result '
              'differs), produce zero run() start events, and every loaded instance carries the recorded start and '
              'duration. Distinct by (DAG, shapes, B1, B2, B3, seeds); non-trivial when >= 2 tasks were loaded in a '
@@ -188,12 +188,72 @@ def one(rep, rng, j):
         shutil.rmtree(ctl, ignore_errors=True)
 
 
+def script_case(rep, b1, b2):
+    """Task types defined in the running script (__main__): first run under b1, second under b2."""
+    import json
+    import os
+    import shutil
+    import subprocess
+    import sys
+    import tempfile
+    d = tempfile.mkdtemp(prefix='vlab-c06s-')
+    try:
+        script = os.path.join(os.path.dirname(os.path.dirname(os.path.abspath(__file__))), 'c06script.py')
+        outp = os.path.join(d, 'report.json')
+        env = dict(os.environ, VLAB_C06_COUNTER=os.path.join(d, 'count.txt'))
+        errp = os.path.join(d, 'stderr.txt')
+        try:
+            with open(errp, 'wb') as ef:     # never a pipe: leftover manager processes would keep it open
+                p = subprocess.Popen([sys.executable, script, os.path.join(d, 'store'), b1, b2, outp], env=env, cwd=d,
+                                     stdout=subprocess.DEVNULL, stderr=ef, stdin=subprocess.DEVNULL, start_new_session=True)
+                try:
+                    p.wait(timeout=180)
+                finally:
+                    try:
+                        os.killpg(p.pid, 9)
+                    except OSError:
+                        pass
+        except subprocess.TimeoutExpired:
+            rep.inconclusive(f'script-defined tasks {b1}>{b2}: timed out')
+            return
+        wit = {'script': 'vlab/c06script.py', 'backends': [b1, b2]}
+        if not os.path.exists(outp):
+            rep.violation('script-tasks-run-failed', f'script-defined tasks, {b1} then {b2}: the script failed: '
+                          f'{open(errp, errors="replace").read()[-600:]}', wit)
+            return
+        x = json.load(open(outp))
+        rep.count('script_defined_task_cases')
+        rep.seen('script_backend_pairs', f'{b1}>{b2}')
+        if not all(x['cached_after_first']):
+            rep.violation('executed-but-not-cached', f'script-defined tasks ({b1}): is_cached after a successful run: '
+                          f'{x["cached_after_first"]}', wit)
+        if x['n2'] != x['n1']:
+            rep.violation('cache-hit-executed', f'script-defined tasks: second run ({b2}) executed {x["n2"] - x["n1"]} '
+                          f'task(s) again after a first run under {b1}', wit)
+        if x['values2'] != x['values1'] or None in x['values1']:
+            rep.violation('hit-value-differs', f'script-defined tasks {b1}>{b2}: values {x["values2"]} vs first run '
+                          f'{x["values1"]}', wit)
+        if x['metas2'] != x['metas1'] or None in x['metas1']:
+            rep.violation('hit-meta-differs', f'script-defined tasks {b1}>{b2}: result_meta differs: {x["metas2"]} vs '
+                          f'{x["metas1"]}', wit)
+        if x['listed'] != 5:
+            rep.violation('not-cached-in-new-process', f'script-defined tasks: cached_tasks lists {x["listed"]} of 5 '
+                          f'entries', wit)
+    finally:
+        shutil.rmtree(d, ignore_errors=True)
+
+
 def run_shard(rep):
     from vlab.dagcommon import scenario_rng
     cfg = META['tiers'][rep.tier]
+    pairs = [(a, b) for a in ('serial', 'fork', 'spawn') for b in ('serial', 'fork', 'spawn')]
+    for i in range(rep.shard, len(pairs) * (1 if rep.tier == 'quick' else 4), rep.nshards):
+        script_case(rep, *pairs[i % len(pairs)])
+        rep.case(['script', pairs[i % len(pairs)], i], True)
     rep.require('hits_compared', 300)
     rep.require('metas_compared', 300)
     rep.require('reused_instance_hits', 100)
+    rep.require('script_defined_task_cases', 6)
     for j in range(rep.shard, cfg['n'], rep.nshards):
         if rep.expired():
             rep.count('skipped_for_time')
